@@ -783,12 +783,17 @@ class Plugin:
             result = strax.dict_to_rec(result, dtype=self.dtype_for(_dtype))
             self._check_dtype(result, _dtype)
             result = self.chunk(start=start, end=end, data_type=_dtype, data=result)
-        if result.data_type != _dtype:
+        self._check_chunk(result, _dtype)
+        return self.superrun_transformation(result, superrun, subruns)
+
+    def _check_chunk(self, result, d):
+        """Check a chunk delivered for data type d is labelled and typed as promised."""
+        if result.data_type != d:
             raise ValueError(
                 f"{self.__class__.__name__} returned a Chunk with data_type "
-                f"{result.data_type} instead of {_dtype}."
+                f"{result.data_type} instead of {d}."
             )
-        return self.superrun_transformation(result, superrun, subruns)
+        self._check_dtype(result.data, d)
 
     def chunk(self, *, start, end, data, data_type=None, run_id=None):
         if data_type is None:
